@@ -415,6 +415,12 @@ def findb_case(run, L):
     bp = ex.alloc(st, Opaque('Board'))
     r = ex.call('board::Board::find_move', [bp, fmtmodel.SymStr(tuple((True, w) for w in word))], ['&mut board::Board', '&str'], 'std::result::Result<board::ply::Ply, &str>', st, 'harness')
     run.absorb(ex)
+    if r is None:
+        # every path diverges: only panics are left to judge
+        for ob, qq in run.check_obligations(ex, name, kinds=('panic', 'unwind', 'unreachable', 'model-limit')):
+            w = bytes(qq.model.eval(x, model_completion=True).as_long() for x in word)
+            replay_find(run, name, list(w), [], False)
+        return
     res, st2 = r
     hit = [z3.And(gs[i], encs[i]) for i in range(n)]
     bad = [(bv(res.d) == 0) != z3.Or(*hit)]
@@ -430,53 +436,69 @@ def findb_case(run, L):
                    note='for every %d-byte word: find_move == Ok(first legal move whose coordinate string is the word), Err if none' % L)
     if q.verdict == 'sat':
         m = q.model
-        w = bytes(m.eval(x, model_completion=True).as_long() for x in word)
+        w = list(bytes(m.eval(x, model_completion=True).as_long() for x in word))
         cands = []
         for i in range(n):
             if z3.is_true(m.eval(gs[i], model_completion=True)):
                 p = plies[i]
                 ev = lambda t: m.eval(bv(t), model_completion=True).as_long()
-                cands.append('abcdefgh'[ev(p[0][1])] + str(ev(p[0][0]) + 1) + 'abcdefgh'[ev(p[1][1])] + str(ev(p[1][0]) + 1))
+                cands.append('abcdefgh'[ev(p[0][1]) & 7] + str((ev(p[0][0]) & 7) + 1) + 'abcdefgh'[ev(p[1][1]) & 7] + str((ev(p[1][0]) & 7) + 1))
         ok_ = m.eval(bv(res.d) == 0, model_completion=True)
         replay_find(run, name, w, cands, z3.is_true(ok_))
     for ob, qq in run.check_obligations(ex, name, kinds=('panic', 'unwind', 'unreachable', 'model-limit')):
         run.violation('%s: find_move can panic / leaves the modelled fragment: %s' % (name, ob), {'case': name})
 
 
+REPLAY_POSITIONS = ['startpos', 'fen 7k/4P3/8/8/8/8/8/4K3 w - - 0 1', 'fen 4k3/8/8/8/8/8/3p4/2R1K3 b - - 0 1',
+                    'fen r3k2r/8/8/8/8/8/8/R3K2R w KQkq - 0 1']
+
+
 def replay_find(run, name, word, cands, accepted):
-    """replay on the real engine: the start position, is the word accepted by `position startpos moves <word>`?"""
+    """replay on the real code (helper `uci exec`: one position command on a fresh session): a word must be accepted exactly
+    when it is the coordinate string of a legal move (independent rules).  The solver's counterexample is transferred to a few
+    concrete positions: the word itself, the byte-wise difference to each of the model's candidates applied to the legal
+    moves of the position, a legal promotion with its suffix dropped / changed, and some generic malformed words."""
+    from .c09 import reference_legal_notations
     try:
-        w = word.decode('ascii')
+        w = bytes(word).decode('ascii')
     except Exception:
         w = None
-    shown = w if w is not None and w.isprintable() and ' ' not in w else repr(word)
-    # search the start position for an instance: any word with the same shape that names no legal move but is accepted
-    from .c09 import real_engine
-    legal_start = {a + '2' + a + r for a in 'abcdefgh' for r in '34'} | {'b1a3', 'b1c3', 'g1f3', 'g1h3'}
-    probes = [w] if w else []
-    # transfer the counterexample to the start position: apply the byte-wise difference between the model's word and
-    # the notation of each of its candidate moves to the notations of the start position's legal moves
-    for c in cands:
-        if len(word) < 4:
+    shown = w if w is not None and w.isprintable() and ' ' not in w else repr(bytes(word))
+    for pos in REPLAY_POSITIONS:
+        legal = reference_legal_notations(run, ['position ' + pos])
+        if legal is None:
             continue
-        delta = [word[k] - ord(c[k]) for k in range(4)]
-        for lm in sorted(legal_start):
-            pw = ''.join(chr((ord(lm[k]) + delta[k]) & 0xff) for k in range(4)) + ''.join(chr(b) for b in word[4:])
-            if pw not in probes and pw not in legal_start:
+        probes = [w] if w else []
+        for c in cands:
+            if len(word) < 4 or len(c) < 4:
+                continue
+            delta = [word[k] - ord(c[k]) for k in range(4)]
+            for lm in sorted(legal):
+                pw = ''.join(chr((ord(lm[k]) + delta[k]) & 0xff) for k in range(4)) + ''.join(chr(x) for x in word[4:])
                 probes.append(pw)
-    probes += ['a2a4q', 'a2a5', 'e2e4x', 'E2E4', 'e2e', 'e2e4e5']      # generic malformed words
-    for pw in probes:
-        if not pw or not pw.isascii() or not pw.isprintable() or ' ' in pw:
-            continue
-        out, err = real_engine(run, ['position startpos moves ' + pw, 'go depth 1'], wait=1.0)
-        bm = [l.split()[1] for l in out.split('\n') if l.startswith('bestmove') and len(l.split()) > 1]
-        black_reply = bool(bm) and bm[0][1] in '78'          # the engine answers for Black <=> the word was accepted and played
-        if black_reply != (pw in legal_start):
-            run.violation('%s: `position startpos moves %s` is %s by the real engine although the word %s' % (
-                name, pw, 'accepted' if black_reply else 'refused', 'names a legal move' if pw in legal_start else 'names no legal move'),
-                {'cmd': 'uci', 'lines': ['position startpos moves ' + pw, 'go depth 1'], 'bestmove': bm})
-            return
-    run.inconclusive.append('%s: solver counterexample (word %s, candidates %s, accepted=%s) not reproduced on the real engine from the start position' % (name, shown, cands, accepted))
+        for lm in sorted(legal):
+            if len(lm) == 5:
+                probes += [lm[:4], lm[:4] + lm[4].upper(), lm[:4] + 'k', lm[:4] + 'p']
+            else:
+                probes += [lm + 'q', lm.upper()]
+        probes += ['a2a5', 'e2e4x', 'e2e', 'e2e4e5']
+        seen = set()
+        for pw in probes:
+            if not pw or pw in seen or not pw.isascii() or not pw.isprintable() or ' ' in pw:
+                continue
+            seen.add(pw)
+            rc, out, err = native.run_helper(run.helper, ['uci', 'exec', 'position'] + pos.split() + ['moves', pw])
+            if out.startswith('PANIC'):
+                run.violation('%s: `position %s moves %s` panics the engine: %s' % (name, pos, pw, out.strip()[:120]),
+                              {'cmd': 'uciexec', 'tokens': ['position'] + pos.split() + ['moves', pw]})
+                return
+            acc = out.startswith('OK ok')
+            if acc != (pw in legal):
+                run.violation('%s: `position %s moves %s` is %s by the real engine although the word %s' % (
+                    name, pos, pw, 'accepted' if acc else 'refused', 'names a legal move' if pw in legal else 'names no legal move'),
+                    {'cmd': 'uciexec', 'tokens': ['position'] + pos.split() + ['moves', pw], 'legal': sorted(legal)})
+                return
+    run.inconclusive.append('%s: solver counterexample (word %s, candidates %s, accepted=%s) not reproduced on the real engine' % (name, shown, cands, accepted))
 
 
 def worker(run, job):
@@ -502,6 +524,10 @@ def check(run, replay=None):
     if replay:
         run.build()
         c = json.load(open(replay))
+        if c.get('cmd') == 'uciexec':
+            rc, out, e = native.run_helper(run.helper, ['uci', 'exec'] + c['tokens'])
+            print('replay exec %r -> %s (legal moves by the independent rules: %s)' % (' '.join(c['tokens']), out.strip()[:80], ' '.join(c.get('legal', []))))
+            return 1
         if c.get('cmd') == 'parse':
             rc, out, e = native.run_helper(run.helper, ['uci', 'parse'] + c['tokens'])
             print('replay parse %r -> %s' % (c['tokens'], out.strip()[:300]))
